@@ -15,7 +15,7 @@ Import ListNotations.
 Definition expr_mono_stmt (f : nat) : Prop :=
   (forall d pr ts, NF (p_expr f d pr ts) -> p_expr (S f) d pr ts = p_expr f d pr ts) /\
   (forall d ts, NF (p_primary f d ts) -> p_primary (S f) d ts = p_primary f d ts) /\
-  (forall d pr e0 ts, NF (p_loop f d pr e0 ts) -> p_loop (S f) d pr e0 ts = p_loop f d pr e0 ts) /\
+  (forall d c pr e0 ts, NF (p_loop f d c pr e0 ts) -> p_loop (S f) d c pr e0 ts = p_loop f d c pr e0 ts) /\
   (forall d o rp ts, NF (p_collect f d o rp ts) -> p_collect (S f) d o rp ts = p_collect f d o rp ts) /\
   (forall d ts, NF (p_args f d ts) -> p_args (S f) d ts = p_args f d ts) /\
   (forall d ts, NF (p_args1 f d ts) -> p_args1 (S f) d ts = p_args1 f d ts).
@@ -46,8 +46,8 @@ Proof.
     all: try (destruct (is_cast r0)). all: repeat mono_step.
   - cbn [p_loop] in H |- *. destruct ts as [|t r0]; [reflexivity|].
     destruct (bin_of t) as [[[o lv] rp]|].
-    + destruct (pr <=? lv); [|reflexivity]. repeat mono_step.
-    + destruct (nary_of t) as [[[o lv] rp]|]; [|reflexivity]. destruct (pr <=? lv); [|reflexivity]. repeat mono_step.
+    + destruct (pr <=? lv); [|reflexivity]. destruct c; [reflexivity|]. repeat mono_step.
+    + destruct (nary_of t) as [[[o lv] rp]|]; [|reflexivity]. destruct (pr <=? lv); [|reflexivity]. destruct c; [reflexivity|]. repeat mono_step.
   - cbn [p_collect] in H |- *. destruct ts as [|t r0]; [reflexivity|]. destruct (is_nop o t); [|reflexivity]. repeat mono_step.
   - cbn [p_args] in H |- *. destruct ts as [|t r0]; [repeat mono_step|]. destruct t; repeat mono_step.
   - cbn [p_args1] in H |- *. repeat mono_step.
@@ -74,8 +74,8 @@ Lemma p_expr_mono f f' d pr ts e r : f <= f' -> p_expr f d pr ts = Ok e r -> p_e
 Proof. apply (mono_ok (fun f => p_expr f d pr ts)). intros. apply expr_mono; assumption. Qed.
 Lemma p_primary_mono f f' d ts e r : f <= f' -> p_primary f d ts = Ok e r -> p_primary f' d ts = Ok e r.
 Proof. apply (mono_ok (fun f => p_primary f d ts)). intros. apply expr_mono; assumption. Qed.
-Lemma p_loop_mono f f' d pr e0 ts e r : f <= f' -> p_loop f d pr e0 ts = Ok e r -> p_loop f' d pr e0 ts = Ok e r.
-Proof. apply (mono_ok (fun f => p_loop f d pr e0 ts)). intros. apply expr_mono; assumption. Qed.
+Lemma p_loop_mono f f' d c pr e0 ts e r : f <= f' -> p_loop f d c pr e0 ts = Ok e r -> p_loop f' d c pr e0 ts = Ok e r.
+Proof. apply (mono_ok (fun f => p_loop f d c pr e0 ts)). intros. apply expr_mono; assumption. Qed.
 Lemma p_collect_mono f f' d o rp ts es r : f <= f' -> p_collect f d o rp ts = Ok es r -> p_collect f' d o rp ts = Ok es r.
 Proof. apply (mono_ok (fun f => p_collect f d o rp ts)). intros. apply expr_mono; assumption. Qed.
 Lemma p_args_mono f f' d ts es r : f <= f' -> p_args f d ts = Ok es r -> p_args f' d ts = Ok es r.
@@ -90,12 +90,12 @@ Proof. apply (mono_det (fun f => p_expr f d pr ts)). intros. apply expr_mono; as
 (* ---------------------------------------------------------------------------------------------- *)
 Definition RE d pr ts e r := exists f, p_expr f d pr ts = Ok e r.
 Definition RP d ts e r := exists f, p_primary f d ts = Ok e r.
-Definition RL d pr e0 ts e r := exists f, p_loop f d pr e0 ts = Ok e r.
+Definition RL d c pr e0 ts e r := exists f, p_loop f d c pr e0 ts = Ok e r.
 Definition RC d o rp ts es r := exists f, p_collect f d o rp ts = Ok es r.
 Definition RA d ts es r := exists f, p_args f d ts = Ok es r.
 Definition RA1 d ts es r := exists f, p_args1 f d ts = Ok es r.
 
-Lemma RE_intro d pr ts e r e' r' : RP d ts e r -> RL d pr e r e' r' -> RE (S d) pr ts e' r'.
+Lemma RE_intro d pr ts e r e' r' : RP d ts e r -> RL d d pr e r e' r' -> RE (S d) pr ts e' r'.
 Proof.
   intros [f1 H1] [f2 H2]. exists (S (max f1 f2)). cbn [p_expr].
   rewrite (p_primary_mono f1 (max f1 f2) _ _ _ _ ltac:(lia) H1). cbn [bind].
@@ -135,7 +135,7 @@ Definition op_lvl (t : token) : option nat :=
   | None => match nary_of t with Some (_, lv, _) => Some lv | None => None end
   end.
 
-Lemma RL_stop d pr e ts : match ts with [] => True | t :: _ => match op_lvl t with Some l => l < pr | None => True end end -> RL d pr e ts e ts.
+Lemma RL_stop d c pr e ts : match ts with [] => True | t :: _ => match op_lvl t with Some l => l < pr | None => True end end -> RL d c pr e ts e ts.
 Proof.
   intros H. exists 1. cbn [p_loop]. destruct ts as [|t r]; [reflexivity|]. unfold op_lvl in H.
   destruct (bin_of t) as [[[o lv] rp]|].
@@ -144,17 +144,17 @@ Proof.
     assert (E : (pr <=? lv) = false) by (apply Nat.leb_gt; exact H). rewrite E. reflexivity.
 Qed.
 
-Lemma RL_bin d pr e t r o lv rp x r1 e' r' :
-  bin_of t = Some (o, lv, rp) -> pr <= lv -> RE d rp r x r1 -> RL d pr (EBin o e x) r1 e' r' -> RL d pr e (t :: r) e' r'.
+Lemma RL_bin d c pr e t r o lv rp x r1 e' r' :
+  bin_of t = Some (o, lv, rp) -> pr <= lv -> RE d rp r x r1 -> RL d c pr (EBin o e x) r1 e' r' -> RL d (S c) pr e (t :: r) e' r'.
 Proof.
   intros Hb Hl [f1 H1] [f2 H2]. exists (S (max f1 f2)). cbn [p_loop]. rewrite Hb.
   apply Nat.leb_le in Hl. rewrite Hl. rewrite (p_expr_mono f1 (max f1 f2) _ _ _ _ _ ltac:(lia) H1). cbn [bind].
   apply (p_loop_mono f2); [lia|exact H2].
 Qed.
 
-Lemma RL_nary d pr e t r o lv rp xs r1 e' r' :
+Lemma RL_nary d c pr e t r o lv rp xs r1 e' r' :
   bin_of t = None -> nary_of t = Some (o, lv, rp) -> pr <= lv -> RC d o rp (t :: r) xs r1 ->
-  RL d pr (ENary o (e :: xs)) r1 e' r' -> RL d pr e (t :: r) e' r'.
+  RL d c pr (ENary o (e :: xs)) r1 e' r' -> RL d (S c) pr e (t :: r) e' r'.
 Proof.
   intros Hb Hn Hl [f1 H1] [f2 H2]. exists (S (max f1 f2)). cbn [p_loop]. rewrite Hb, Hn.
   apply Nat.leb_le in Hl. rewrite Hl. rewrite (p_collect_mono f1 (max f1 f2) _ _ _ _ _ _ ltac:(lia) H1). cbn [bind].
@@ -407,8 +407,25 @@ Definition no_extend (e : expr) (rest : list token) : Prop :=
   | _ => tail_ok 5 rest
   end.
 
-Definition A_stmt (x : expr) : Prop := forall d pr rest e' r',
-  hgt x <= S d -> fits pr x -> no_extend x rest -> RL d pr x rest e' r' -> RE (S d) pr (pp x ++ rest) e' r'.
+(* the number of operators the loop of the frame that reads `pp x` applies before x is built: the first operand of an
+   operator standing bare (without parentheses) is built by the same loop *)
+Fixpoint spine (e : expr) : nat :=
+  match e with
+  | EBin o l _ => 1 + (if bare (bin_lvl o) l then spine l else 0)
+  | ENary o (e1 :: _) => 1 + (if bare (nop_lvl o) e1 && negb (same_nop o e1) then spine e1 else 0)
+  | _ => 0
+  end.
+Lemma spine_lt e : spine e < hgt e.
+Proof.
+  induction e using expr_ind'; cbn [spine hgt]; try lia.
+  - destruct (bare (bin_lvl o) e1); lia.
+  - destruct es as [|e1 es']; [lia|]. inversion H as [|? ? H1 _]; subst. cbn [maxl fold_right].
+    destruct (bare (nop_lvl o) e1 && negb (same_nop o e1)); lia.
+Qed.
+
+(* c = what is left of the budget of operators of the loop once x is built *)
+Definition A_stmt (x : expr) : Prop := forall d c pr rest e' r',
+  hgt x <= S d -> spine x + c = d -> fits pr x -> no_extend x rest -> RL d c pr x rest e' r' -> RE (S d) pr (pp x ++ rest) e' r'.
 
 Lemma no_extend_tail0 x rest : tail_ok 0 rest -> no_extend x rest.
 Proof.
@@ -432,22 +449,30 @@ Proof. destruct x; cbn [no_extend]; try apply tail_ok_comma. split; [apply tail_
 Lemma fits0 x : fits 0 x.
 Proof. unfold fits. destruct (lvl x); [lia|exact I]. Qed.
 
+(* the loop stops after x *)
+Lemma A_stop x d pr rest : A_stmt x -> hgt x <= S d -> fits pr x -> no_extend x rest ->
+  match rest with [] => True | t :: _ => match op_lvl t with Some l => l < pr | None => True end end ->
+  RE (S d) pr (pp x ++ rest) x rest.
+Proof.
+  intros A Hh Hf Hne Hs. pose proof (spine_lt x). apply (A d (d - spine x)); [exact Hh|lia|exact Hf|exact Hne|apply RL_stop; exact Hs].
+Qed.
+
 (* `( pp x )` *)
 Lemma paren_ok x d0 R : A_stmt x -> hgt x <= S d0 -> is_cast (pp x ++ TRParen :: R) = false ->
   RP (S d0) (TLParen :: pp x ++ TRParen :: R) x R.
 Proof.
-  intros A Hh Hc. apply RP_paren; [exact Hc|]. apply A; [exact Hh|apply fits0|apply no_extend_rparen|].
-  apply RL_stop. reflexivity.
+  intros A Hh Hc. apply RP_paren; [exact Hc|]. apply A_stop; [exact A|exact Hh|apply fits0|apply no_extend_rparen|reflexivity].
 Qed.
 
 (* an operand that continues the loop of the current frame *)
-Lemma operand_cont x d pr m R e' r' : A_stmt x -> wf_expr x -> hgt x <= d -> pr <= m -> m <= 4 ->
-  (bare m x = true -> no_extend x R) -> RL d pr x R e' r' -> RE (S d) pr (pp_at m x ++ R) e' r'.
+Lemma operand_cont x d c pr m R e' r' : A_stmt x -> wf_expr x -> hgt x <= d -> pr <= m -> m <= 4 ->
+  (if bare m x then spine x else 0) + c = d ->
+  (bare m x = true -> no_extend x R) -> RL d c pr x R e' r' -> RE (S d) pr (pp_at m x ++ R) e' r'.
 Proof.
-  intros A W Hh Hpm Hm Hne HL. unfold pp_at. destruct (bare m x) eqn:Eb.
-  - apply A; [lia| |apply Hne; reflexivity|exact HL].
+  intros A W Hh Hpm Hm Hc Hne HL. unfold pp_at. destruct (bare m x) eqn:Eb.
+  - apply (A d c); [lia|exact Hc| |apply Hne; reflexivity|exact HL].
     unfold bare in Eb. unfold fits. destruct (lvl x); [|exact I]. apply Nat.leb_le in Eb. lia.
-  - destruct d as [|d0]; [pose proof (hgt_pos x); lia|].
+  - cbn [Nat.add] in Hc. subst c. destruct d as [|d0]; [pose proof (hgt_pos x); lia|].
     unfold paren. cbn [app]. rewrite <- app_assoc. cbn [app].
     eapply RE_intro; [|exact HL]. apply paren_ok; [exact A|exact Hh|].
     apply is_cast_pp; [exact W|]. destruct x; try exact I. unfold bare in Eb. cbn [lvl] in Eb. apply Nat.leb_gt in Eb. lia.
@@ -457,7 +482,9 @@ Qed.
 Lemma operand_ok x d m rest : A_stmt x -> wf_expr x -> hgt x <= d -> m <= 4 -> tail_ok m rest ->
   RE (S d) m (pp_at m x ++ rest) x rest.
 Proof.
-  intros A W Hh Hm Ht. apply operand_cont; try assumption; [lia| |].
+  intros A W Hh Hm Ht. pose proof (spine_lt x).
+  apply (operand_cont x d (d - (if bare m x then spine x else 0))); try assumption; [lia| | |].
+  - destruct (bare m x); lia.
   - intros Hb. eapply no_extend_bare; eauto.
   - apply RL_stop. apply tail_ok_stop. exact Ht.
 Qed.
@@ -468,9 +495,9 @@ Lemma args1_ok d0 x xs rest :
   RA1 (S d0) (pp x ++ flat_map (fun y => [TComma] ++ pp y) xs ++ TRParen :: rest) (x :: xs) rest.
 Proof.
   revert x. induction xs as [|y ys IH]; intros x HF; inversion HF as [|? ? (W & A & Hh) HF']; subst.
-  - cbn [flat_map app]. apply RA1_last. apply A; [exact Hh|apply fits0|apply no_extend_rparen|apply RL_stop; reflexivity].
+  - cbn [flat_map app]. apply RA1_last. apply A_stop; [exact A|exact Hh|apply fits0|apply no_extend_rparen|reflexivity].
   - cbn [flat_map]. repeat (first [rewrite <- app_assoc | progress cbn [app]]). eapply RA1_more; [|apply IH; exact HF'].
-    apply A; [exact Hh|apply fits0|apply no_extend_comma|apply RL_stop; reflexivity].
+    apply A_stop; [exact A|exact Hh|apply fits0|apply no_extend_comma|reflexivity].
 Qed.
 
 Lemma args_ok d0 es rest :
@@ -520,7 +547,8 @@ Qed.
 
 Theorem expr_roundtrip_loop e : wf_expr e -> A_stmt e.
 Proof.
-  induction e using expr_ind'; intros W; cbn [wf_expr] in W; intros d pr rest e' r' Hh Hf Hne HL.
+  induction e using expr_ind'; intros W; cbn [wf_expr] in W; intros d c pr rest e' r' Hh Hc Hf Hne HL; cbn [spine Nat.add] in Hc;
+    try (subst c).
   - eapply RE_intro; [apply RP_bool|exact HL].
   - eapply RE_intro; [apply RP_int|exact HL].
   - eapply RE_intro; [apply RP_real|exact HL].
@@ -533,7 +561,7 @@ Proof.
     + eapply RP_cast.
       * rewrite is_cast_qid; [|exact Wq|exact I]. rewrite Ep. exact Hs.
       * apply p_qid_pp; [exact Wq|exact I].
-      * apply IHe; [exact Wx|lia|apply fits0|apply no_extend_tail0; exact Hne|apply RL_stop; apply tail_ok_stop; exact Hne].
+      * apply A_stop; [apply IHe; exact Wx|lia|apply fits0|apply no_extend_tail0; exact Hne|apply tail_ok_stop; exact Hne].
     + destruct d0 as [|d1]; [pose proof (hgt_pos e); lia|]. eapply RP_cast.
       * rewrite is_cast_qid; [|exact Wq|exact I]. reflexivity.
       * apply p_qid_pp; [exact Wq|exact I].
@@ -552,7 +580,7 @@ Proof.
   - (* binary *)
     destruct W as [Wl Wr]. cbn [hgt] in Hh. cbn [no_extend] in Hne. unfold fits in Hf. cbn [lvl] in Hf.
     destruct d as [|d0]; [lia|]. rewrite pp_bin, <- app_assoc. cbn [app].
-    apply operand_cont; [apply IHe1; exact Wl|exact Wl|lia|exact Hf|destruct o; cbn; lia| |].
+    apply (operand_cont e1 (S d0) (S c)); [apply IHe1; exact Wl|exact Wl|lia|exact Hf|destruct o; cbn; lia|lia| |].
     + intros Hb. apply (no_extend_left _ _ _ (bin_lvl o)); [exact Hb|]. rewrite op_lvl_bin. split; [reflexivity|]. split; [destruct o; discriminate|]. split; [destruct o; discriminate|]. intros o' Ho'. exfalso. exact (is_nop_bin_all _ _ Ho').
     + eapply RL_bin; [apply bin_of_tok|exact Hf| |exact HL].
       apply operand_ok; [apply IHe2; exact Wr|exact Wr|lia|destruct o; cbn; lia|exact Hne].
@@ -570,24 +598,24 @@ Proof.
   - (* n-ary *)
     destruct W as [Wn Wa]. apply wf_all in Wa. cbn [hgt] in Hh. cbn [no_extend] in Hne. destruct Hne as [Ht Hno].
     unfold fits in Hf. cbn [lvl] in Hf. destruct d as [|d0]; [lia|].
-    destruct es as [|e1 es']; [cbn in Wn; lia|]. destruct es' as [|e2 es'']; [cbn in Wn; lia|].
+    destruct es as [|e1 es']; [cbn in Wn; lia|]. destruct es' as [|e2 es'']; [cbn in Wn; lia|]. cbn [spine Nat.add] in Hc.
     rewrite pp_nary, <- app_assoc.
     inversion H as [|? ? H1 H2]; subst. inversion Wa as [|? ? W1 W2]; subst.
     assert (Hall : Forall (fun x => hgt x <= d0) (e1 :: e2 :: es'')) by (apply maxl_all; lia).
     inversion Hall as [|? ? Hh1 Hh2]; subst.
-    assert (HRL : RL (S d0) pr e1 (flat_map (fun x => [nop_tok o] ++ pp_at (S (nop_lvl o)) x) (e2 :: es'') ++ rest) e' r').
+    assert (HRL : RL (S d0) (S c) pr e1 (flat_map (fun x => [nop_tok o] ++ pp_at (S (nop_lvl o)) x) (e2 :: es'') ++ rest) e' r').
     { cbn [flat_map app]. eapply RL_nary; [apply bin_of_nop|apply nary_of_tok|exact Hf| |exact HL].
       apply (collect_ok d0 o (e2 :: es'') rest); [|exact Ht|exact Hno].
       apply Forall_and3; [exact W2|eapply Forall_mp; eauto|exact Hh2]. }
     unfold pp_first. destruct (bare (nop_lvl o) e1 && negb (same_nop o e1)) eqn:Eb.
     + apply andb_true_iff in Eb. destruct Eb as [Eb Es].
-      apply (H1 W1); [lia| | |exact HRL].
+      apply (H1 W1 (S d0) (S c)); [lia|lia| | |exact HRL].
       * unfold bare in Eb. unfold fits. destruct (lvl e1); [|exact I]. apply Nat.leb_le in Eb. lia.
       * cbn [flat_map app]. apply (no_extend_left _ _ _ (nop_lvl o)); [exact Eb|]. rewrite op_lvl_nop. split; [reflexivity|].
         split; [destruct o; discriminate|]. split; [destruct o; discriminate|].
         intros o' Ho'. apply is_nop_inj in Ho'. subst o'. destruct e1; try exact I. cbn [same_nop] in Es. intros ->.
         destruct o; discriminate Es.
-    + unfold paren. cbn [app]. rewrite <- app_assoc. cbn [app].
+    + assert (Ec : S c = S d0) by lia. rewrite Ec in HRL. unfold paren. cbn [app]. rewrite <- app_assoc. cbn [app].
       eapply RE_intro; [|exact HRL]. apply paren_ok; [apply H1; exact W1|lia|].
       apply is_cast_pp; [exact W1|]. destruct e1; try exact I. cbn in Eb. destruct (nop_lvl o <=? 4) eqn:E4; [discriminate Eb|].
       apply Nat.leb_gt in E4. destruct o; cbn in E4; lia.
@@ -600,8 +628,7 @@ Lemma p_expr_pp_depth e rest d f : wf_expr e -> hgt e <= S d -> tail_ok 0 rest -
   8 * List.length (pp e ++ rest) + 1 < f -> p_expr f (S d) 0 (pp e ++ rest) = Ok e rest.
 Proof.
   intros W Hh Ht Hf.
-  destruct (expr_roundtrip_loop e W d 0 rest e rest Hh (fits0 e) (no_extend_tail0 e rest Ht)
-              (RL_stop d 0 e rest (tail_ok_stop 0 rest Ht))) as [f0 H0].
+  destruct (A_stop e d 0 rest (expr_roundtrip_loop e W) Hh (fits0 e) (no_extend_tail0 e rest Ht) (tail_ok_stop 0 rest Ht)) as [f0 H0].
   eapply p_expr_det; [exact H0|]. apply nf_p_expr. exact Hf.
 Qed.
 
